@@ -49,7 +49,7 @@ MANIFEST = {
     "named by a context of pairwise distinct names) two variable occurrences are printed with the same name iff they are the "
     "same variable; fresh_names_nodup — `_fresh_name` never returns the same name twice. The full round-trip statement is "
     "false for int-typed / negative / inf / nan const arguments (witness theorems, known findings). Model tied to /repo on "
-    "every run by same-input correspondence on random real type objects (quick ~1500, thorough ~40000 cases).",
+    "every run by same-input correspondence on random real type objects (quick ~4500, thorough ~110000 cases incl. every first-order type of depth <= 2 over a small signature).",
     "level_note": "Trusted: Lean kernel + propext/Classical.choice/Quot.sound; the hand-written model of printer, CPython "
     "expression parser (fragment) and type reader (correspondence is sampling); CPython's tokenizer/ast on the rendered "
     "string (checked per case against the model's stage 1); identifiers contain neither ' nor ?. /repo was repaired twice "
@@ -57,7 +57,7 @@ MANIFEST = {
     "technique": "Lean 4 proof (mutual structural induction over the nested type family; state invariant for the "
     "fresh-name scheme) + differential correspondence with printing.py / parsing.py on real type objects",
     "design_ref": "DESIGN.md §5 C31",
-    "ready": False,
+    "ready": True,
 }
 UNMODELLED = [
     "Callable[...] / Self / qualified names (module.attr) / string (delayed) annotations / comptime(...) expressions / @flags in the reader",
@@ -544,7 +544,7 @@ def gen_first_order(ctx, n):
     base = _mk_gen(rng, [])
     out = []
     for _ in range(n):
-        wild = rng.random() < 0.2
+        wild = rng.random() < 0.3
         ps = _ctx_params(rng, base, rng.choice([0, 0, 1, 2, 3, 5])) if (wild or rng.random() < 0.7) else []
         if not wild:
             ps = base.gen_params(len(ps), dependent=False, comptime=False)
@@ -553,6 +553,30 @@ def gen_first_order(ctx, n):
         t = g.gen(rng.choice([1, 2, 2, 3, 3, 4]))
         out.append(("fo", ps, t))
     return out
+
+
+def gen_exhaustive():
+    """every first-order type of nesting depth <= 2 over {int, bool, None, T} with tuples of arity 0..2,
+    Option, array[_, 2] and the generic struct G1 (thorough tier)"""
+    from guppylang_internals.tys import builtin as B
+    from guppylang_internals.tys import ty as T
+    from guppylang_internals.tys.arg import ConstArg, TypeArg
+    from guppylang_internals.tys.const import ConstValue
+    from guppylang_internals.tys.param import TypeParam
+
+    W = world()
+    p = TypeParam(0, "T", False, False)
+    level = [B.int_type(), B.bool_type(), T.NoneType(), p.to_bound().ty]
+    seen = list(level)
+    for _d in range(2):
+        new = [T.TupleType([])]
+        new += [T.TupleType([a]) for a in seen]
+        new += [T.TupleType([a, b]) for a in seen for b in seen]
+        new += [T.OpaqueType([TypeArg(a)], W.opaques["Option"]) for a in seen]
+        new += [T.OpaqueType([TypeArg(a), ConstArg(ConstValue(B.nat_type(), 2))], W.opaques["array"]) for a in seen]
+        new += [T.StructType([TypeArg(a)], W.structs["G1"]) for a in seen]
+        seen = level + new
+    return [("fo", [p], t) for t in seen]
 
 
 def gen_functions(ctx, n):
@@ -697,10 +721,46 @@ def _build(expr: str):
     return eval(expr, ns)  # noqa: S307 - corpus files are ours
 
 
+def _fallback(ctx, exc):
+    """the environment of struct definitions cannot even be built (the real annotation reader rejects the
+    sources of harness/tysexp.py): look for a failing input among builtin types, with builtin globals only"""
+    import traceback
+
+    from guppylang_internals.checker.core import Globals
+    from guppylang_internals.tys import builtin as B
+    from guppylang_internals.tys import ty as T
+    from guppylang_internals.tys.parsing import TypeParsingCtx, type_from_ast
+
+    ctx.broke("definition environment cannot be built on this tree: " + "".join(
+        traceback.format_exception_only(type(exc), exc)).strip()[:300])
+    I, N, F, Bo = B.int_type(), B.nat_type(), B.float_type(), B.bool_type()
+    cands = [I, N, F, Bo, T.NoneType(), T.TupleType([]), T.TupleType([I]), T.TupleType([I, Bo]),
+             B.array_type(I, 3), B.array_type(T.TupleType([I, Bo]), 0), B.frozenarray_type(F, 2),
+             B.option_type(I), B.option_type(T.TupleType([I, Bo])), B.option_type(B.array_type(Bo, 7)),
+             T.TupleType([B.array_type(I, 1), B.option_type(T.TupleType([]))])]
+    g = Globals(None)
+    for t in cands:
+        try:
+            s = str(t)
+            t2 = type_from_ast(ast.parse(s, mode="eval").body, TypeParsingCtx(g, {}))
+            ok, how = t2 == t, "ok " + str(t2)
+        except BaseException as ex:  # noqa: BLE001
+            s = locals().get("s", "<str() raised>")
+            ok, how = False, "err " + _err_name(ex)
+        ctx.count(repr(t), nontrivial=True, kind="fallback:" + ("ok" if ok else "fail"))
+        if not ok:
+            ctx.violation("input:builtin " + repr(s), f"printed type `{s}` does not read back as the same type: {how}",
+                          {"printed": s, "real_read": how, "type": repr(t)})
+
+
 def tie(ctx):
     import tysexp
 
-    W = world()
+    try:
+        W = world()
+    except BaseException as exc:  # noqa: BLE001
+        _fallback(ctx, exc)
+        return
     cases = []  # (stream, ctx params, type, label)
     for fn, item in _corpus(ctx):
         ps = [_build(p) for p in item.get("ctx", [])]
@@ -708,11 +768,18 @@ def tie(ctx):
     if ctx.replay_in and "build" in ctx.replay_in.get("replay", {}):
         r = ctx.replay_in["replay"]
         cases.append((r.get("stream", "fo"), [_build(p) for p in r.get("ctx", [])], _build(r["build"]), "replay"))
-    for s, ps, t in gen_first_order(ctx, ctx.n(900, 26000)):
+    if not ctx.quick:
+        ex = gen_exhaustive()
+        ctx.extra["exhaustive"] = True
+        ctx.extra["exhaustive_note"] = (f"all {len(ex)} first-order types of depth <= 2 over int/bool/None/T with tuples of "
+                                        "arity 0..2, Option, array[_, 2], G1")
+        for s, ps, t in ex:
+            cases.append((s, ps, t, ""))
+    for s, ps, t in gen_first_order(ctx, ctx.n(2500, 70000)):
         cases.append((s, ps, t, ""))
-    for s, ps, t in gen_functions(ctx, ctx.n(400, 9000)):
+    for s, ps, t in gen_functions(ctx, ctx.n(1200, 25000)):
         cases.append((s, ps, t, ""))
-    mutants = gen_mutants(ctx, ctx.n(300, 6000))
+    mutants = gen_mutants(ctx, ctx.n(800, 15000))
 
     lines = [W.env_line] + [_req(ps, t) for _s, ps, t, _l in cases]
     mut_reqs = []
